@@ -235,6 +235,7 @@ inline void runC07(Ctx &c)
             c.dump = [&]() { return dumpOptCase(oc, &x); };
             if (!c.require("C07.reference_state_accepted", initRig(rig, oc), okey(oc, "setup")))
                 continue;
+            c.event(std::string("optimizer_route.") + routeViaCopy(r, rig));
             x = genDecisionVector(r, oc, rig);
             if (oc.exactZeros && r.coin(0.7))
             {
@@ -314,6 +315,7 @@ inline void runC08(Ctx &c)
             c.dump = [&]() { return dumpOptCase(oc, &x); };
             if (!c.require("C08.reference_state_accepted", initRig(rig, oc), okey(oc, "setup")))
                 continue;
+            c.event(std::string("optimizer_route.") + routeViaCopy(r, rig));
             x = genDecisionVector(r, oc, rig);
             c.nontrivial(hashOptCase(oc, &x));
             if (idx < 1)
@@ -324,6 +326,18 @@ inline void runC08(Ctx &c)
             const bool three = r.coin(0.7);
             EvalOpts eo;
             eo.threeCosts = three;
+            if (three && r.coin(0.3))
+            {
+                // a user executor that visits the segments in another order (what a sample carries must not depend on it)
+                eo.executor = 2;
+                for (int i = 0; i < cl.N; ++i)
+                    eo.perm.push_back(i);
+                if (r.coin())
+                    std::reverse(eo.perm.begin(), eo.perm.end());
+                else
+                    r.shuffle(eo.perm);
+                c.event("executor.permuted");
+            }
             if (r.coin(0.4))
                 eo.ws = rig.env->newWorkspace();
             VectorXd grad;
@@ -544,6 +558,20 @@ inline void c09CheckConfig(Ctx &c, OptCase &oc, OptRig &rig, Rng &r, bool fullPr
     }
     // an arbitrary decision vector: decoded quantities as the functors and the exposed spline see them
     VectorXd x = genDecisionVector(r, oc, rig);
+    if (r.coin(0.25))
+    {
+        // "for every decision vector": far from the reference as well (durations of a fraction of a millisecond or of
+        // minutes, waypoints far away); decoding is judged bitwise against the maps, not numerically
+        for (auto &e : L)
+        {
+            if (e.kind == 0 && r.coin(0.5))
+                x(e.offset) = rig.env->tmToTau(rig.tmH, r.pick(std::vector<double>{7e-4, 2e-4, 3e-5, 250.0, 4000.0}));
+            else if (e.kind == 1 && r.coin(0.3))
+                for (int q = 0; q < e.size; ++q)
+                    x(e.offset + q) += 50.0 * r.normal();
+        }
+        c.event("decision_vector.extreme");
+    }
     VectorXd grad;
     if (r.coin(0.4))
     {
@@ -689,6 +717,7 @@ inline void runC09(Ctx &c)
                     c.nontrivial(hashOptCase(oc));
                     if (fb == 0 && N == 1)
                         c.wantSample();
+                    c.event(std::string("optimizer_route.") + routeViaCopy(r, rig));
                     c.event("grid_cells");
                     c09CheckConfig(c, oc, rig, r, true, "grid");
                 }
